@@ -236,7 +236,7 @@ def cgStat (s : St) : Stat → St
     let s1 := cgExp s c
     St.close (cgBlock (s1.open []) b) s1 l
   | .repeat_ b c l => St.close (cgExp (cgBlock (s.open []) b) c) s l
-  | .if_ cs bs _ => cgIf s cs bs
+  | .if_ cs bs _ _ => cgIf s cs bs
   | .fornum v vl i lim st b l =>
     -- the step is visited before the limit
     let x := cgExp (cgExp (cgExp (s.open []) i) st) lim
